@@ -185,20 +185,47 @@ pub fn guarded<T>(f: impl FnOnce() -> T) -> Result<T, String> {
 }
 
 // ---------------- watchdog ----------------
+//
+// A call that does not return is a violation (C01), but a loaded machine must
+// never look like a hang: the limit is on the CPU time the worker thread has
+// consumed inside one job (read from /proc/self/task/<tid>/stat), not on wall
+// time. Wall time is only used as a very generous backstop.
 
 pub struct Slot {
     started: Mutex<Option<(Instant, String)>>,
+    tid: u64,
 }
 
 static SLOTS: Mutex<Vec<Arc<Slot>>> = Mutex::new(Vec::new());
 static WATCHDOG_ON: AtomicBool = AtomicBool::new(false);
-pub static HANG_SECONDS: AtomicUsize = AtomicUsize::new(20);
+/// CPU seconds one job may consume
+pub static HANG_SECONDS: AtomicUsize = AtomicUsize::new(60);
+/// wall-clock backstop (seconds)
+pub static HANG_WALL_SECONDS: AtomicUsize = AtomicUsize::new(1800);
 /// called with the description of the job that hangs; must not return
 static HANG_HANDLER: Mutex<Option<Box<dyn Fn(&str) + Send>>> = Mutex::new(None);
 
+fn my_tid() -> u64 {
+    std::fs::read_link("/proc/thread-self")
+        .ok()
+        .and_then(|p| p.file_name().and_then(|n| n.to_str().and_then(|s| s.parse().ok())))
+        .unwrap_or(0)
+}
+
+/// CPU time (user + system) of a thread of this process, in seconds
+fn thread_cpu_seconds(tid: u64) -> Option<f64> {
+    let s = std::fs::read_to_string(format!("/proc/self/task/{}/stat", tid)).ok()?;
+    // fields after the closing ')' of the command name: state is field 3
+    let rest = &s[s.rfind(')')? + 2..];
+    let f: Vec<&str> = rest.split_whitespace().collect();
+    let utime: f64 = f.get(11)?.parse().ok()?;
+    let stime: f64 = f.get(12)?.parse().ok()?;
+    Some((utime + stime) / 100.0)
+}
+
 thread_local! {
     static MY_SLOT: Arc<Slot> = {
-        let s = Arc::new(Slot { started: Mutex::new(None) });
+        let s = Arc::new(Slot { started: Mutex::new(None), tid: my_tid() });
         SLOTS.lock().unwrap().push(s.clone());
         s
     };
@@ -219,19 +246,36 @@ pub fn start_watchdog() {
     if WATCHDOG_ON.swap(true, Ordering::SeqCst) {
         return;
     }
-    std::thread::spawn(|| loop {
-        std::thread::sleep(Duration::from_millis(500));
-        let limit = Duration::from_secs(HANG_SECONDS.load(Ordering::Relaxed) as u64);
-        let slots = SLOTS.lock().unwrap().clone();
-        for s in slots {
-            let g = s.started.lock().unwrap().clone();
-            if let Some((t0, desc)) = g {
-                if t0.elapsed() > limit {
-                    if let Some(h) = HANG_HANDLER.lock().unwrap().as_ref() {
-                        h(&desc);
+    std::thread::spawn(|| {
+        // per slot: (job start, cpu seconds when the job was first seen)
+        let mut seen: std::collections::HashMap<u64, (Instant, f64)> = Default::default();
+        loop {
+            std::thread::sleep(Duration::from_millis(1000));
+            let cpu_limit = HANG_SECONDS.load(Ordering::Relaxed) as f64;
+            let wall_limit = Duration::from_secs(HANG_WALL_SECONDS.load(Ordering::Relaxed) as u64);
+            let slots = SLOTS.lock().unwrap().clone();
+            for s in slots {
+                let g = s.started.lock().unwrap().clone();
+                match g {
+                    None => {
+                        seen.remove(&s.tid);
                     }
-                    println!("HANG (no handler): {}", desc);
-                    std::process::exit(1);
+                    Some((t0, desc)) => {
+                        let cpu_now = thread_cpu_seconds(s.tid);
+                        let e = seen.entry(s.tid).or_insert((t0, cpu_now.unwrap_or(0.0)));
+                        if e.0 != t0 {
+                            *e = (t0, cpu_now.unwrap_or(0.0));
+                        }
+                        let cpu_used = cpu_now.map(|c| c - e.1).unwrap_or(0.0);
+                        if cpu_used > cpu_limit || t0.elapsed() > wall_limit {
+                            let d = format!("{} (cpu {:.0}s, wall {:.0}s in one job)", desc, cpu_used, t0.elapsed().as_secs_f64());
+                            if let Some(h) = HANG_HANDLER.lock().unwrap().as_ref() {
+                                h(&d);
+                            }
+                            println!("HANG (no handler): {}", d);
+                            std::process::exit(1);
+                        }
+                    }
                 }
             }
         }
